@@ -1407,4 +1407,10 @@ def as_indexable(it, x):
         return x.start, x.stop, (lambda i: i)
     if isinstance(x, LazySeq):
         return 0, x.length, x.elem
+    if isinstance(x, list) and len(x) == 1 and isinstance(x[0], Chunk):
+        from .seq import seq_str_at
+        t = x[0].term
+        n = x[0].length if x[0].length is not None else seq_len(t)
+        it.ctx.assume(zint(n) >= 0)
+        return 0, n, (lambda j: mkstr([Opq(seq_str_at(t, j))]))
     raise Unsupported("invariant-cut loop over %s" % type(x).__name__)
